@@ -585,7 +585,7 @@ def parse_template(text):
 # --------------------------------------------------------------------------
 # lifting one function
 # --------------------------------------------------------------------------
-LABEL_RX = re.compile(r'//#\s*([A-Za-z0-9_.:\-]+)')
+LABEL_RX = re.compile(r"//#\s*([A-Za-z0-9_.:+\-]+)")
 
 
 def loop_positions(t, body_open, body_close):
